@@ -161,7 +161,7 @@ CLAIMS["C01"] = dict(
     note=TRUSTED + BOUNDED + " Assumed for the walks: node well-formedness of every node in the heap (nodeWF in verif_contracts_walk.go: index ranges, params/end positions agree with the '{' count of the key, childless and catch-all-terminal nodes are leaves, infix catch-alls have an inode) - not proved of the constructors, but checked on every tree the routing and map-model stand-ins build; a sub-walk on a pooled context leaves the caller's buffers alone; the monotonicity axiom of cnt. Two genuine defects found by the stand-in were repaired (parameter count after a second backtrack; known_findings.json); three sibling-dependent trailing-slash priority witnesses are recorded as open findings.")
 CLAIMS["C08"] = dict(
     technique="contract-based deductive verification of request dispatch over an abstract selection function + bounded stand-in for the trailing-slash detection in the walk",
-    text=("Proved for every request and router state (ServeHTTP, partial correctness): exactly one handler runs; a direct match runs the route's handler with tsr=false; "
+    text=("Proved for every request and router state (ServeHTTP, including its own memory safety: no nil dereference, index or type-assertion failure for a router built by New and routes built by NewRoute): exactly one handler runs; a direct match runs the route's handler with tsr=false; "
           "a trailing-slash-only match runs the route's handler with tsr=true iff the route ignores trailing slashes (and the method is not CONNECT, the path not '/'); it runs "
           "the redirect handler iff the route redirects and the request path equals CleanPath of itself, with no route/params in the context; otherwise the request is "
           "unserved (C11). FixTrailingSlash adds or removes exactly one final slash. copyWithResize keeps the tsr parameters. roots.lookup only ever sets the tsr flag it was "
@@ -196,7 +196,7 @@ CLAIMS["C10"]["note"] += BOUNDED
 
 CLAIMS["C11"] = dict(
     technique="contract-based deductive verification of the unserved-request section of ServeHTTP: ghost record of the method keys written to the Allow builder, loop invariants, SMT",
-    text=("Proved for every request, router options and tree (ServeHTTP, partial correctness; selection abstracted as a function of the immutable tree and (method, host, path)): "
+    text=("Proved for every request, router options and tree (ServeHTTP, safety included; selection abstracted as a function of the immutable tree and (method, host, path)): "
           "an unserved request runs exactly one of the options / no-method / no-route handlers with no route, tsr=false, zero parameters and the matching scope; the options handler "
           "runs iff the method is OPTIONS, automatic replies are on and some method serves the host and path directly or by an ignored trailing slash (for '*': some non-OPTIONS "
           "method has routes), and the set of method keys written to the Allow builder is exactly that set, followed by OPTIONS; otherwise with method-not-allowed on, the "
